@@ -2,6 +2,14 @@
 
 package sonic
 
+import (
+	"io"
+
+	"github.com/talostrading/sonic/internal/vf"
+)
+
+var verifEOF = io.EOF
+
 // Helpers that let harnesses of other packages build and inspect ByteBuffer
 // states (its fields are unexported). Overlay only; never part of /repo.
 
@@ -17,3 +25,185 @@ func VerifBufState(b *ByteBuffer) (si, ri, wi, capv int) {
 func VerifBufRaw(b *ByteBuffer) []byte { return b.data[:cap(b.data)] }
 
 func VerifBufInv(b *ByteBuffer) bool { return c09Inv(b) }
+
+// ---- scripted transport: a Stream whose peer is the harness ----
+
+// VerifTransport implements Stream. Reads hand out the next n bytes of In
+// (n symbolic, 1 <= n <= min(len(b), remaining)); writes accept 1..len(b)
+// bytes (symbolic) and append them to Out. Asynchronous operations complete
+// inline unless Hold is set, in which case FireRead/FireWrite complete them.
+type VerifTransport struct {
+	In        []byte
+	InOff     int
+	Total     int
+	Out       []byte
+	Segs      int
+	MaxSegs   int
+	WSegs     int
+	MaxWSegs  int
+	Hold      bool
+	Concrete  bool // segment sizes are case-split into constants (long histories, DESIGN §2.13 regime B)
+	EOFErr    error // what a read at end of stream returns (nil: io.EOF)
+	WriteErr  error // if non-nil, writes fail with it (after accepting nothing)
+	Closed    bool
+	Reads     int
+	Writes    int
+	heldRead  func()
+	heldWrite func()
+	Cancels   int
+}
+
+var _ Stream = &VerifTransport{}
+
+func (t *VerifTransport) RawFd() int { return -1 }
+
+func (t *VerifTransport) Close() error {
+	t.Closed = true
+	return nil
+}
+
+func (t *VerifTransport) Cancel() { t.Cancels++ }
+
+func (t *VerifTransport) eof() error {
+	if t.EOFErr != nil {
+		return t.EOFErr
+	}
+	return verifEOF
+}
+
+func (t *VerifTransport) Read(b []byte) (int, error) {
+	t.Reads++
+	if len(b) == 0 {
+		return 0, nil
+	}
+	if t.InOff >= t.Total {
+		return 0, t.eof()
+	}
+	rem := t.Total - t.InOff
+	n := vf.Len("seg")
+	vf.Assume(vf.All(1 <= n, n <= len(b), n <= rem))
+	t.Segs++
+	if t.MaxSegs > 0 && t.Segs >= t.MaxSegs {
+		// last allowed segment delivers everything that fits
+		m := rem
+		if m > len(b) {
+			m = len(b)
+		}
+		vf.Assume(n == m)
+	}
+	if t.Concrete {
+		n = vf.Concretize(n, 64)
+	}
+	copy(b[:n], t.In[t.InOff:t.InOff+n])
+	t.InOff += n
+	return n, nil
+}
+
+func (t *VerifTransport) AsyncRead(b []byte, cb AsyncCallback) {
+	do := func() {
+		n, err := t.Read(b)
+		cb(err, n)
+	}
+	if t.Hold {
+		t.heldRead = do
+		return
+	}
+	do()
+}
+
+func (t *VerifTransport) AsyncReadAll(b []byte, cb AsyncCallback) {
+	do := func() {
+		got := 0
+		for got < len(b) {
+			n, err := t.Read(b[got:])
+			got += n
+			if err != nil {
+				cb(err, got)
+				return
+			}
+		}
+		cb(nil, got)
+	}
+	if t.Hold {
+		t.heldRead = do
+		return
+	}
+	do()
+}
+
+func (t *VerifTransport) Write(b []byte) (int, error) {
+	t.Writes++
+	if t.WriteErr != nil {
+		return 0, t.WriteErr
+	}
+	if len(b) == 0 {
+		return 0, nil
+	}
+	n := vf.Len("wseg")
+	vf.Assume(vf.All(1 <= n, n <= len(b)))
+	t.WSegs++
+	if t.MaxWSegs > 0 && t.WSegs >= t.MaxWSegs {
+		vf.Assume(n == len(b))
+	}
+	if t.Concrete {
+		n = vf.Concretize(n, 64)
+	}
+	t.Out = append(t.Out, b[:n]...)
+	return n, nil
+}
+
+func (t *VerifTransport) AsyncWrite(b []byte, cb AsyncCallback) {
+	do := func() {
+		n, err := t.Write(b)
+		cb(err, n)
+	}
+	if t.Hold {
+		t.heldWrite = do
+		return
+	}
+	do()
+}
+
+func (t *VerifTransport) AsyncWriteAll(b []byte, cb AsyncCallback) {
+	do := func() {
+		sent := 0
+		for sent < len(b) {
+			n, err := t.Write(b[sent:])
+			sent += n
+			if err != nil {
+				cb(err, sent)
+				return
+			}
+		}
+		cb(nil, sent)
+	}
+	if t.Hold {
+		t.heldWrite = do
+		return
+	}
+	do()
+}
+
+// FireRead completes the held asynchronous read, if any.
+func (t *VerifTransport) FireRead() bool {
+	if t.heldRead == nil {
+		return false
+	}
+	f := t.heldRead
+	t.heldRead = nil
+	f()
+	return true
+}
+
+func (t *VerifTransport) FireWrite() bool {
+	if t.heldWrite == nil {
+		return false
+	}
+	f := t.heldWrite
+	t.heldWrite = nil
+	f()
+	return true
+}
+
+func (t *VerifTransport) HasHeldRead() bool  { return t.heldRead != nil }
+func (t *VerifTransport) HasHeldWrite() bool { return t.heldWrite != nil }
